@@ -10,11 +10,28 @@ from sx import tag
 
 
 # ---------------------------------------------------------------------------- implementation
-def impl_ops(fm, keys):
-    from flamapy.metamodels.fm_metamodel.operations import (
-        FMEstimatedConfigurationsNumber, FMCoreFeatures, FMAtomicSets, FMCountLeafs,
-        FMLeafFeatures, FMMaxDepthTree, FMAverageBranchingFactor, FMFeatureAncestors,
-        FMVariationPoints)
+class PersistentOps:
+    """one operation object per operation, re-used for every model of the run: a result that
+    depends on an earlier execution (cached result, accumulated state) shows up as a mismatch"""
+
+    def __init__(self):
+        from flamapy.metamodels.fm_metamodel.operations import (
+            FMEstimatedConfigurationsNumber, FMCoreFeatures, FMAtomicSets, FMCountLeafs,
+            FMLeafFeatures, FMMaxDepthTree, FMAverageBranchingFactor, FMFeatureAncestors,
+            FMVariationPoints)
+        self.estimate = FMEstimatedConfigurationsNumber()
+        self.core = FMCoreFeatures()
+        self.atomic = FMAtomicSets()
+        self.count_leafs = FMCountLeafs()
+        self.leaf_features = FMLeafFeatures()
+        self.max_depth = FMMaxDepthTree()
+        self.abf = FMAverageBranchingFactor()
+        self.ancestors = FMFeatureAncestors()
+        self.vps = FMVariationPoints()
+
+
+def impl_ops(fm, keys, ops=None):
+    ops = ops or PersistentOps()
     out = {}
 
     def run(key, fn):
@@ -25,24 +42,23 @@ def impl_ops(fm, keys):
                 raise
             except Exception as e:  # noqa: BLE001
                 out[key] = ("err", spec.exn_name(e))
-    run("estimate", lambda: FMEstimatedConfigurationsNumber().execute(fm).get_result())
-    run("core", lambda: sorted(f.name for f in FMCoreFeatures().execute(fm).get_result()))
-    run("atomic", lambda: [sorted(f.name for f in s) for s in FMAtomicSets().execute(fm).get_result()])
-    run("count_leafs", lambda: FMCountLeafs().execute(fm).get_result())
-    run("leaf_features", lambda: [f.name for f in FMLeafFeatures().execute(fm).get_result()])
-    run("max_depth", lambda: FMMaxDepthTree().execute(fm).get_result())
-    run("abf", lambda: repr(float(FMAverageBranchingFactor().execute(fm).get_result())))
+    run("estimate", lambda: ops.estimate.execute(fm).get_result())
+    run("core", lambda: sorted(f.name for f in ops.core.execute(fm).get_result()))
+    run("atomic", lambda: [sorted(f.name for f in s) for s in ops.atomic.execute(fm).get_result()])
+    run("count_leafs", lambda: ops.count_leafs.execute(fm).get_result())
+    run("leaf_features", lambda: [f.name for f in ops.leaf_features.execute(fm).get_result()])
+    run("max_depth", lambda: ops.max_depth.execute(fm).get_result())
+    run("abf", lambda: repr(float(ops.abf.execute(fm).get_result())))
 
     def ancestors():
         res = []
         for f in fm.get_features():
-            op = FMFeatureAncestors()
-            op.set_feature(f)
-            res.append([f.name, [a.name for a in op.execute(fm).get_result()]])
+            ops.ancestors.set_feature(f)
+            res.append([f.name, [a.name for a in ops.ancestors.execute(fm).get_result()]])
         return sorted(res)
     run("ancestors", ancestors)
     run("vps", lambda: sorted([k.name, [v.name for v in vs]]
-                              for k, vs in FMVariationPoints().execute(fm).get_result().items()))
+                              for k, vs in ops.vps.execute(fm).get_result().items()))
     return out
 
 
@@ -273,11 +289,12 @@ def cases(ctx, with_ctcs, big):
 def make_run(name, keys, with_ctcs=True, big=(), bf_limit=12, check_sem=False):
     def run(ctx):
         st = ctx.suite(name)
+        ops = PersistentOps()
         for label, m in cases(ctx, with_ctcs, big):
             req = sx.dumps(tag("ops", spec.fm_sx(m)))
             mreply = model_ops(sx.loads(ctx.model.call_raw(req)), keys)
             fm = spec.build_fm(m)
-            impl = impl_ops(fm, keys)
+            impl = impl_ops(fm, keys, ops)
             after = spec.dump_fm(fm)
             n = spec.spec_size(m["root"])
             st.record(label, req, repr(impl), repr(mreply), nontrivial=n >= 2)
